@@ -29,6 +29,12 @@ Qed.
 Lemma wsum_app l1 l2 P : wsum (l1 ++ l2) P = wsum l1 P + wsum l2 P.
 Proof. induction l1 as [|v l IH]; cbn [wsum app]; [reflexivity|]. rewrite IH. lia. Qed.
 
+Lemma wsum_single_notin l (f : A -> bool) : (forall v, In v l -> f v = false) -> wsum l f = 0.
+Proof.
+  induction l as [|v l IH]; cbn [wsum]; intros H; [reflexivity|].
+  rewrite (H v (or_introl eq_refl)), IH; [reflexivity|]. intros u Hu. apply H. right. exact Hu.
+Qed.
+
 Lemma wsum_false l : wsum l (fun _ => false) = 0.
 Proof. induction l as [|v l IH]; cbn [wsum]; [reflexivity|]. rewrite IH. reflexivity. Qed.
 
@@ -113,6 +119,17 @@ Proof.
   apply andb_prop in Hpq. destruct Hpq as [Hp Hq']. exists v. repeat split; assumption.
 Qed.
 End WSum.
+
+Lemma wsum_map {A B} (w : B -> N) (g : A -> B) (l : list A) (P : B -> bool) :
+  wsum w (map g l) P = wsum (fun a => w (g a)) l (fun a => P (g a)).
+Proof. induction l as [|v l IH]; cbn [wsum map]; [reflexivity|]. rewrite IH. reflexivity. Qed.
+
+Lemma wsum_ext_w {A} (w1 w2 : A -> N) (l : list A) (P : A -> bool) :
+  (forall v, In v l -> w1 v = w2 v) -> wsum w1 l P = wsum w2 l P.
+Proof.
+  induction l as [|v l IH]; cbn [wsum]; intros H; [reflexivity|].
+  rewrite (H v (or_introl eq_refl)), IH; [reflexivity|]. intros u Hu. apply H. right. exact Hu.
+Qed.
 
 (* weights carried in the list itself: members are (id, weight) pairs *)
 Definition wsum_pairs {I : Type} (l : list (I * N)) (P : I -> bool) : N :=
